@@ -85,6 +85,12 @@ CLAIMS = {
         note="Partial: the pair cache only. No symbolic scalars in this kernel (shape enumeration); type-checker API stubbed by contract under symx and real in the native replay. "
              "Found and fixed (fix: commit): the cache key of an interface was derived from its first method's declaring type, so an interface embedding an already-seen one was skipped.",
     ),
+    "C08": dict(
+        text="For every assignment of producer nilabilities (symbolic) to <=N triggers over two return statements the solver shows that FilterTriggersForErrorReturn drops value-result triggers iff the "
+             "statement's error is definitely non-nil, drops the error trigger iff the error may be nil, rewrites kept consumers as the convention says and touches nothing else; and ObservePackage reports "
+             "the nil value returned with a possibly-nil error through a contracted callee in all 720 trigger orders, whichever inference round incorporates the value result.",
+        note="Partial: package-level filtering only; return-expression classification and caller-side guards are outside. Found and fixed (fix: commit): controlled triggers were forgotten between the two rounds.",
+    ),
 }
 
 # reasons for every property not (yet) claimed
@@ -93,5 +99,5 @@ NOT_APPLICABLE = {
     "C16": "The quantifier is goroutine interleavings over the whole analysis heap; symx has no thread model and no installed solver-based engine explores Go schedules.",
     "C18": "Everything the property depends on is environment (process cwd captured at init, filepath.Rel, driver cwd); after stubbing those by contract the residual repo code is a one-line wrapper.",
 }
-for _p in ["C07", "C08", "C14", "C20"]:
+for _p in ["C07", "C14", "C20"]:
     NOT_APPLICABLE.setdefault(_p, "kernel check not yet registered (in progress; see DESIGN.md section 4)")
